@@ -19,7 +19,7 @@ NAME = "keep-unique"
 
 
 def run(ctx, out, tier):
-    vb = ctx.validate_body(NAME)
+    vb = ctx.validate_body(NAME, inline=True)
     if vb is None:
         out.inst("C07.anchor", 0, 1)
         return meta()
@@ -107,11 +107,23 @@ def run(ctx, out, tier):
             out.viol("C07.key", "C07.key|not-trim", where, "without a regex the key derives from [%s]; expected `line.trim()`" % util.origins_text(labs, 6))
         # blank lines are skipped: a None key is produced under trim().is_empty()
         ok = False
-        for d in vb.defs().get(key_local, []):
-            if d[0] == "stmt" and d[3]["rv"]["k"] == "agg" and d[3]["rv"].get("variant") == "None":
-                for br, vals, e in util.guards(ctx, vb, d[1]):
-                    if re.search(r"str::is_empty\(str::trim\(", render(e, 300)) and 0 not in vals:
-                        ok = True
+        # follow plain copies (a helper's return slot after inlining) back to the `None` aggregates
+        srcs, seen_l = [key_local], set()
+        while srcs:
+            l = srcs.pop()
+            if l in seen_l:
+                continue
+            seen_l.add(l)
+            for d in vb.defs().get(l, []):
+                if d[0] != "stmt":
+                    continue
+                rv = d[3]["rv"]
+                if rv["k"] == "use" and util.op_place(rv["op"]) and not util.op_place(rv["op"])["p"]:
+                    srcs.append(util.op_place(rv["op"])["l"])
+                if rv["k"] == "agg" and rv.get("variant") == "None":
+                    for br, vals, e in util.guards(ctx, vb, d[1]):
+                        if re.search(r"str::is_empty\(str::trim\(", render(e, 300)) and 0 not in vals:
+                            ok = True
         if ok:
             n_key += 1
         else:
